@@ -567,6 +567,296 @@ pub async fn close_bank_cycle(w: &mut World, m: &mut Mon, r: &mut R, g: usize, l
     }
 }
 
+/// An account that fills all sixteen position slots (fifteen deposits and one pure debt) and then
+/// reaches for a seventeenth bank - by deposit, by borrow and as a liquidator: it must be refused
+/// (no slot), and whatever happens the ledger monitors reconcile every bank touched. Afterwards one
+/// position is closed and the seventeenth bank is entered through the freed slot.
+pub async fn slot_saturation(w: &mut World, m: &mut Mon, r: &mut R, g: usize, lender: usize) {
+    let hosts: Vec<usize> = (0..w.banks.len()).filter(|b| w.banks[*b].group == g && w.banks[*b].venue.is_none() && matches!(w.mints[w.banks[*b].mint].kind, TokKind::Classic | TokKind::T22) && matches!(w.banks[*b].oracle, OracleD::Pyth(_) | OracleD::Swb(_) | OracleD::Fixed)).collect();
+    if hosts.is_empty() {
+        m.r.count("scen.slot_saturation_not_possible");
+        return;
+    }
+    let mint = w.banks[pick(r, &hosts)].mint;
+    let mut bs = vec![];
+    for _ in 0..17 {
+        match w.add_bank_fixed(g, mint, default_bank_cfg(), wi(1.0)).await {
+            Ok(b) => bs.push(b),
+            Err(_) => {
+                m.r.count("scen.slot_saturation_not_possible");
+                return;
+            }
+        }
+    }
+    let unit = 10u64.pow(w.mints[mint].decimals.min(9) as u32);
+    let lk = w.auth_of(lender);
+    w.mint_to(mint, w.ta_of(lender, bs[15]), 1_000_000 * unit).await;
+    for b in [bs[15], bs[16]] {
+        let i = w.ix_deposit(lender, b, lk.pubkey(), w.ta_of(lender, b), 10_000 * unit, None);
+        let _ = w.exec(m, &[i], &[&lk]).await;
+    }
+    let u = w.add_user(0).await;
+    let a = w.add_account(g, u).await;
+    let auth = w.auth_of(a);
+    let ak = auth.pubkey();
+    let ta = w.ta_of(a, bs[0]);
+    w.mint_to(mint, ta, 1_000_000 * unit).await;
+    for b in bs.iter().take(15) {
+        let i = w.ix_deposit(a, *b, ak, ta, 100 * unit, None);
+        if !w.exec(m, &[i], &[&auth]).await.ok() {
+            m.r.count("scen.slot_saturation_setup_failed");
+            return;
+        }
+    }
+    let i = w.ix_borrow(a, bs[15], ak, ta, pick(r, &[50 * unit, 7 * unit + 1]));
+    if !w.exec(m, &[i], &[&auth]).await.ok() {
+        m.r.count("scen.slot_saturation_setup_failed");
+        return;
+    }
+    m.r.count("scen.slot_saturation_rounds");
+    // the seventeenth bank: deposit, borrow
+    let i = w.ix_deposit(a, bs[16], ak, ta, 10 * unit, None);
+    let o = w.exec(m, &[i], &[&auth]).await;
+    m.r.count(if o.ok() { "scen.seventeenth_position_accepted/deposit" } else { "scen.seventeenth_position_refused/deposit" });
+    let i = w.ix_borrow(a, bs[16], ak, ta, unit);
+    let o = w.exec(m, &[i], &[&auth]).await;
+    m.r.count(if o.ok() { "scen.seventeenth_position_accepted/borrow" } else { "scen.seventeenth_position_refused/borrow" });
+    // a pulse of the full account (sixteen positions in the order the engine walks them)
+    let i = ix::pulse_health(w.accts[a].key, w.risk_metas(a, None, None));
+    let _ = w.exec(m, &[i], &[]).await;
+    // one deposit is closed, the freed slot takes the seventeenth bank
+    let i = w.ix_withdraw(a, bs[3], ak, ta, 0, Some(true));
+    let o = w.exec(m, &[i], &[&auth]).await;
+    if o.ok() {
+        let i = w.ix_deposit(a, bs[16], ak, ta, 10 * unit, None);
+        let o = w.exec(m, &[i], &[&auth]).await;
+        m.r.count(if o.ok() { "scen.freed_slot_reused" } else { "scen.freed_slot_reuse_refused" });
+    }
+    // the debt is repaid in full and the debt slot reused for a deposit elsewhere
+    let i = w.ix_repay(a, bs[15], ak, ta, 0, Some(true));
+    let _ = w.exec(m, &[i], &[&auth]).await;
+    let i = w.ix_deposit(a, bs[3], ak, ta, 5 * unit, None);
+    let _ = w.exec(m, &[i], &[&auth]).await;
+}
+
+/// A bank is flagged for token-less repayment (the risk admin may write debts off without paying).
+/// A small account (under five dollars, so that a receivership may repay it completely) owes that
+/// bank and becomes liquidatable; a stranger takes it into receivership and repays the whole debt:
+/// he has to pay for it like anybody else - the write-off belongs to the risk admin alone.
+pub async fn tokenless_stranger(w: &mut World, m: &mut Mon, r: &mut R, g: usize, lender: usize) {
+    let cas: Vec<usize> = (0..w.banks.len()).filter(|b| w.banks[*b].group == g && usable_collateral(w, *b) && matches!(w.banks[*b].oracle, OracleD::Pyth(_)) && unit_usd_low(w, *b).map(|p| p > 0.0).unwrap_or(false)).collect();
+    let dbs: Vec<usize> = (0..w.banks.len()).filter(|b| w.banks[*b].group == g && w.banks[*b].venue.is_none() && w.bank(*b).config.operational_state == BankOperationalState::Operational && w.bank(*b).config.asset_tag <= 1 && w.bank(*b).config.risk_tier == RiskTier::Collateral && unit_usd_low(w, *b).map(|p| p > 0.0).unwrap_or(false)).collect();
+    if cas.is_empty() || dbs.is_empty() {
+        m.r.count("scen.tokenless_stranger_not_possible");
+        return;
+    }
+    let ca = pick(r, &cas);
+    let others: Vec<usize> = dbs.iter().cloned().filter(|b| *b != ca).collect();
+    if others.is_empty() {
+        m.r.count("scen.tokenless_stranger_not_possible");
+        return;
+    }
+    let db = pick(r, &others);
+    let (pc, _pd) = (unit_usd_low(w, ca).unwrap(), unit_usd_low(w, db).unwrap());
+    let lk = w.auth_of(lender);
+    let i = w.ix_deposit(lender, db, lk.pubkey(), w.ta_of(lender, db), 1 << 34, None);
+    let _ = w.exec(m, &[i], &[&lk]).await;
+    let u = w.add_user(1u64 << 40).await;
+    let a = w.add_account(g, u).await;
+    let auth = w.auth_of(a);
+    let ak = auth.pubkey();
+    let dep = ((3.0 / pc) as u64).max(1);
+    let i = w.ix_deposit(a, ca, ak, w.ta_of(a, ca), dep, None);
+    if !w.exec(m, &[i], &[&auth]).await.ok() {
+        m.r.count("scen.tokenless_stranger_setup_failed");
+        return;
+    }
+    let ta = w.ta_of(a, db);
+    let hi = w.token(&w.banks[db].k.lv);
+    let max = bisect_max(w, m, &[&auth], hi, |w, v| vec![w.ix_borrow(a, db, ak, ta, v)]).await.unwrap_or(0);
+    if max < 2 {
+        m.r.count("scen.tokenless_stranger_setup_failed");
+        return;
+    }
+    let i = w.ix_borrow(a, db, ak, ta, max - max / 10);
+    if !w.exec(m, &[i], &[&auth]).await.ok() {
+        m.r.count("scen.tokenless_stranger_setup_failed");
+        return;
+    }
+    let gk = w.groups[g].key;
+    let admin = clone_kp(&w.groups[g].admin);
+    let mut o = BankConfigOpt::default();
+    o.tokenless_repayments_allowed = Some(true);
+    o.operational_state = Some(BankOperationalState::ReduceOnly);
+    let i = ix::configure_bank(gk, admin.pubkey(), w.banks[db].key, o);
+    if !w.exec(m, &[i], &[&admin]).await.ok() {
+        m.r.count("scen.tokenless_stranger_setup_failed");
+        return;
+    }
+    let ru = w.accts[lender].user;
+    let rk = w.user_kp(ru);
+    let tas = w.users[ru].tas.clone();
+    let saved = save_price(w, ca);
+    let mut startable = false;
+    for _ in 0..8 {
+        let with_init = !w.shadow.contains_key(&ix::liq_record_key(&w.accts[a].key));
+        let ixs = receivership_ixs(w, a, &rk, None, None, with_init, &tas);
+        if w.probe(m, &ixs, &[&rk]).await.ok() {
+            startable = true;
+            break;
+        }
+        scale_price(w, ca, 0.6);
+    }
+    if startable {
+        let with_init = !w.shadow.contains_key(&ix::liq_record_key(&w.accts[a].key));
+        let ixs = receivership_ixs(w, a, &rk, None, Some((db, 0, true)), with_init, &tas);
+        let o = w.exec(m, &ixs, &[&rk]).await;
+        m.r.count("scen.tokenless_stranger_rounds");
+        m.r.count(&format!("scen.stranger_whole_debt_repayment_on_flagged_bank/{}", if o.ok() { "accepted".to_string() } else { o.custom_code().map(|c| c.to_string()).unwrap_or_else(|| "other".into()) }));
+    } else {
+        m.r.count("scen.tokenless_stranger_account_never_liquidatable");
+    }
+    restore_price(w, ca, saved);
+    let mut o = BankConfigOpt::default();
+    o.tokenless_repayments_allowed = Some(false);
+    o.operational_state = Some(BankOperationalState::Operational);
+    let i = ix::configure_bank(gk, admin.pubkey(), w.banks[db].key, o);
+    let _ = w.exec(m, &[i], &[&admin]).await;
+}
+
+/// The collateral bank of a leveraged account is wound down (reduce-only): its deposits stop
+/// counting towards new borrowing whatever e-mode says, so a further borrow and a withdrawal of
+/// other collateral have to be refused (the C04 monitor judges any acceptance against the
+/// reference, in which reduce-only collateral backs nothing at the initial level).
+pub async fn reduce_only_probe(w: &mut World, m: &mut Mon, r: &mut R, lev: &Lev, g: usize) {
+    if w.banks[lev.ca].venue.is_some() {
+        return;
+    }
+    let gk = w.groups[g].key;
+    let admin = clone_kp(&w.groups[g].admin);
+    let mut o = BankConfigOpt::default();
+    o.operational_state = Some(BankOperationalState::ReduceOnly);
+    let i = ix::configure_bank(gk, admin.pubkey(), w.banks[lev.ca].key, o);
+    if !w.exec(m, &[i], &[&admin]).await.ok() {
+        m.r.count("scen.reduce_only_probe_configure_refused");
+        return;
+    }
+    m.r.count("scen.reduce_only_probes");
+    let auth = w.auth_of(lev.acct);
+    let ak = auth.pubkey();
+    for amt in [1u64, pick(r, &[1000u64, 100_000])] {
+        let i = w.ix_borrow(lev.acct, lev.db, ak, w.ta_of(lev.acct, lev.db), amt);
+        let ob = w.exec(m, &[i], &[&auth]).await;
+        m.r.count(if ob.ok() { "scen.borrow_against_reduce_only_collateral_accepted" } else { "scen.borrow_against_reduce_only_collateral_refused" });
+    }
+    let i = ix::pulse_health(w.accts[lev.acct].key, w.risk_metas(lev.acct, None, None));
+    let _ = w.exec(m, &[i], &[]).await;
+    let mut o = BankConfigOpt::default();
+    o.operational_state = Some(BankOperationalState::Operational);
+    let i = ix::configure_bank(gk, admin.pubkey(), w.banks[lev.ca].key, o);
+    let _ = w.exec(m, &[i], &[&admin]).await;
+}
+
+/// A liquidator that is solvent only thanks to e-mode: its tagged collateral backs a debt in a bank
+/// that lists the tag, close to the e-mode limit. Liquidating somebody whose debt sits in a bank
+/// *without* any e-mode configuration makes the liquidator owe that bank too, which ends the
+/// preferential weight for all its collateral - so the liquidation has to be refused (the liquidator
+/// would not remain initially healthy). The C05 monitor judges any that goes through.
+pub async fn emode_liquidator(w: &mut World, m: &mut Mon, r: &mut R, g: usize, lender: usize) {
+    let hosts: Vec<usize> = (0..w.banks.len()).filter(|b| w.banks[*b].group == g && w.banks[*b].venue.is_none() && matches!(w.mints[w.banks[*b].mint].kind, TokKind::Classic | TokKind::T22) && w.mints[w.banks[*b].mint].decimals >= 6 && w.mints[w.banks[*b].mint].decimals <= 9 && matches!(w.banks[*b].oracle, OracleD::Pyth(_) | OracleD::Swb(_) | OracleD::Fixed)).collect();
+    if hosts.is_empty() {
+        m.r.count("scen.emode_liquidator_not_possible");
+        return;
+    }
+    let mint = w.banks[pick(r, &hosts)].mint;
+    let now = w.chain.now();
+    let mut zc = default_bank_cfg();
+    zc.asset_weight_init = wi(0.5);
+    zc.asset_weight_maint = wi(0.6);
+    let mut ids = vec![];
+    for cfg in [zc, default_bank_cfg(), default_bank_cfg(), default_bank_cfg()] {
+        match w.add_bank_pyth(g, mint, cfg, PythPx::simple(1_000_000, -6, now)).await {
+            Ok(b) => ids.push(b),
+            Err(_) => {
+                m.r.count("scen.emode_liquidator_not_possible");
+                return;
+            }
+        }
+    }
+    let (z, x, p, c) = (ids[0], ids[1], ids[2], ids[3]);
+    let gk = w.groups[g].key;
+    let ea = clone_kp(&w.groups[g].emode);
+    let zero_w: WrappedI80F48 = wi(0.0);
+    let empty = [EmodeEntry { collateral_bank_emode_tag: 0, flags: 0, pad0: [0; 5], asset_weight_init: zero_w, asset_weight_maint: zero_w }; MAX_EMODE_ENTRIES];
+    let i = ix::configure_bank_emode(gk, ea.pubkey(), w.banks[z].key, 5, empty);
+    let ok1 = w.exec(m, &[i], &[&ea]).await.ok();
+    let mut t = empty;
+    t[0] = EmodeEntry { collateral_bank_emode_tag: 5, flags: 0, pad0: [0; 5], asset_weight_init: wi(0.9), asset_weight_maint: wi(0.93) };
+    let i = ix::configure_bank_emode(gk, ea.pubkey(), w.banks[x].key, 0, t);
+    let ok2 = w.exec(m, &[i], &[&ea]).await.ok();
+    if !ok1 || !ok2 {
+        m.r.count("scen.emode_liquidator_emode_setup_refused");
+        return;
+    }
+    let lk = w.auth_of(lender);
+    let unit = 10u64.pow(w.mints[mint].decimals as u32);
+    w.mint_to(mint, w.ta_of(lender, x), 4_000_000 * unit).await;
+    for b in [x, p] {
+        let i = w.ix_deposit(lender, b, lk.pubkey(), w.ta_of(lender, b), 1_000_000 * unit, None);
+        let _ = w.exec(m, &[i], &[&lk]).await;
+    }
+    // the liquidator
+    let lu = w.add_user(0).await;
+    let lq = w.add_account(g, lu).await;
+    let lqk = w.auth_of(lq);
+    w.mint_to(mint, w.ta_of(lq, z), 100_000 * unit).await;
+    let i = w.ix_deposit(lq, z, lqk.pubkey(), w.ta_of(lq, z), 10_000 * unit, None);
+    if !w.exec(m, &[i], &[&lqk]).await.ok() {
+        m.r.count("scen.emode_liquidator_setup_failed");
+        return;
+    }
+    let (ta, lqp) = (w.ta_of(lq, x), lqk.pubkey());
+    let max = match bisect_max(w, m, &[&lqk], 20_000 * unit, |w, v| vec![w.ix_borrow(lq, x, lqp, ta, v)]).await {
+        Some(v) if v > 0 => v,
+        _ => {
+            m.r.count("scen.emode_liquidator_setup_failed");
+            return;
+        }
+    };
+    let i = w.ix_borrow(lq, x, lqp, ta, max - max / 50);
+    if !w.exec(m, &[i], &[&lqk]).await.ok() {
+        m.r.count("scen.emode_liquidator_setup_failed");
+        return;
+    }
+    // the victim: collateral in c, debt in the bank without e-mode configuration
+    let vu = w.add_user(0).await;
+    let va = w.add_account(g, vu).await;
+    let vk = w.auth_of(va);
+    w.mint_to(mint, w.ta_of(va, c), 100_000 * unit).await;
+    let i = w.ix_deposit(va, c, vk.pubkey(), w.ta_of(va, c), 1_000 * unit, None);
+    let _ = w.exec(m, &[i], &[&vk]).await;
+    let (tav, vkp) = (w.ta_of(va, p), vk.pubkey());
+    let vmax = bisect_max(w, m, &[&vk], 2_000 * unit, |w, v| vec![w.ix_borrow(va, p, vkp, tav, v)]).await.unwrap_or(0);
+    if vmax == 0 {
+        m.r.count("scen.emode_liquidator_setup_failed");
+        return;
+    }
+    let i = w.ix_borrow(va, p, vkp, tav, vmax - vmax / 100);
+    let _ = w.exec(m, &[i], &[&vk]).await;
+    scale_price(w, c, 0.8);
+    m.r.count("scen.emode_liquidator_rounds");
+    for seize in [1u64, 10, 100] {
+        let i = w.ix_liquidate(lq, va, c, p, lqp, seize * unit);
+        let o = w.exec(m, &[i], &[&lqk]).await;
+        m.r.count(&format!("scen.emode_liquidator/{}", if o.ok() { "accepted".to_string() } else { o.custom_code().map(|c| c.to_string()).unwrap_or_else(|| "other".into()) }));
+    }
+    // control: the same liquidation by somebody who does not depend on e-mode goes through
+    let i = w.ix_liquidate(lender, va, c, p, lk.pubkey(), 10 * unit);
+    let o = w.exec(m, &[i], &[&lk]).await;
+    m.r.count(if o.ok() { "scen.emode_liquidator_control_accepted" } else { "scen.emode_liquidator_control_refused" });
+    scale_price(w, c, 1.25);
+}
+
 /// Receivership bracket: [init record] start, withdraw x, repay y, end.
 pub fn receivership_ixs(w: &World, le: usize, receiver: &Keypair, wd: Option<(usize, u64, bool)>, rp: Option<(usize, u64, bool)>, with_init: bool, tas: &[solana_sdk::pubkey::Pubkey]) -> Vec<Instruction> {
     let acct = w.accts[le].key;
@@ -965,7 +1255,7 @@ pub async fn deleverage(w: &mut World, m: &mut Mon, r: &mut R, lev: &Lev, g: usi
         let p2 = unit_usd_low(w, c2).unwrap_or(1.0);
         let pd = unit_usd_low(w, lev.db).filter(|p| *p > 0.0);
         let worth = limit as f64 * pick(r, &[2.0f64, 1.5, 4.0]) + 2.0;
-        let amt2 = (worth / p2) as u64 + 1;
+        let amt2 = ((worth / p2) as u64).saturating_add(1).min(1 << 50);
         let auth = w.auth_of(lev.acct);
         w.mint_to(w.banks[c2].mint, w.ta_of(lev.acct, c2), amt2).await;
         let i = w.ix_deposit(lev.acct, c2, auth.pubkey(), w.ta_of(lev.acct, c2), amt2, None);
@@ -980,7 +1270,7 @@ pub async fn deleverage(w: &mut World, m: &mut Mon, r: &mut R, lev: &Lev, g: usi
         let risk_metas = w.risk_metas(lev.acct, None, None);
         let mut rem = w.mint_prefix(c2);
         rem.extend(risk_metas.clone());
-        let rp = pd.map(|pd| (worth / pd) as u64 + 1).unwrap_or(u64::MAX).min(lev.borrowed / 2 + 1);
+        let rp = pd.map(|pd| ((worth / pd) as u64).saturating_add(1)).unwrap_or(u64::MAX).min(lev.borrowed / 2 + 1);
         let junk_amount = pick(r, &[0u64, 0, 1, u64::MAX]);
         let ixs = vec![
             ix::start_deleverage(gk, acct, risk.pubkey(), risk_metas.clone()),
